@@ -101,6 +101,32 @@ MALFORMED = [
 ]
 
 
+def malformed_twins(rng, s):
+    """Strings that differ from the valid string s only by a documented no-go."""
+    out = []
+    body = s.strip()
+    iso = body[:1] == 'P'
+    # whitespace INSIDE a number
+    runs = [m for m in re.finditer(r'\d{2,}', body)]
+    if runs and rng.random() < 0.5:
+        m = rng.choice(runs)
+        cut = rng.randrange(m.start() + 1, m.end())
+        out.append(body[:cut] + ' ' + body[cut:])
+    if iso:
+        r = rng.random()
+        if r < 0.3 and body.lower() != body:
+            out.append(body.lower())        # lower case is for the traditional format only
+        elif r < 0.5:
+            letters = [i for i, ch in enumerate(body) if ch.isalpha()]
+            i = rng.choice(letters)
+            out.append(body[:i] + body[i].lower() + body[i + 1:])
+        elif r < 0.7 and len(body) > 2:
+            cut = rng.randrange(1, len(body))       # whitespace inside an ISO string
+            if not (body[cut - 1].isdigit() and body[cut].isdigit()):
+                out.append(body[:cut] + ' ' + body[cut:])
+    return out
+
+
 def gen(ctx):
     rng = ctx.rng('gen')
     quick = ctx.tier == 'quick'
@@ -256,6 +282,19 @@ def run_case(case, ctx):
                 if got2 != got:
                     raise core.Violation(
                         'time_period-str', f"time_period({s!r}) = {got2!r} != convert = {got!r}")
+                # malformed twins of the string just converted (same process, right after it:
+                # an accepted string must not make its malformed look-alikes acceptable)
+                for bad in malformed_twins(rng, s):
+                    ctx.count('malformed_twins')
+                    try:
+                        val = utils.convert(bad)
+                    except Exception:   # pylint: disable=broad-except
+                        ctx.count('malformed_rejected')
+                    else:
+                        raise core.Violation(
+                            'malformed-accepted',
+                            f"convert({bad!r}) returned {val!r} instead of raising (right after "
+                            f"convert({s!r}))")
             ctx.case_done(case, True, {'parts': parts, 'frac': frac, 'renderings': rends,
                                        'expected': fexp})
             return
